@@ -238,7 +238,8 @@ HALVED_IN_QUICK = ("nn.activations.params", "rev_iota_select.params", "clamp_pow
 def entries(tier):
     """ordered {name: (group, label, placement)}.
     quick: every variant at top level; one more placement (rotating fori body / cond branch / jit body) for every variant of
-    the control-flow neighbourhoods and for every 4th variant elsewhere.  thorough: all five placements."""
+    the control-flow neighbourhoods and for every 6th variant elsewhere (large neighbourhoods of mostly supported variants are
+    halved).  thorough: top / fori body / cond branch / jit body for every variant, plus scan body for control flow."""
     reg = _build()
     out = {}
     for gi, (group, sites, vs, place) in enumerate(reg.groups):
@@ -253,7 +254,7 @@ def entries(tier):
                     continue
                 pls = ("top", PLACEMENTS_QUICK_ALT[(gi + vi) % 3]) if (prio or (gi + vi) % 6 == 0) else ("top",)
             else:
-                pls = PLACEMENTS_ALL
+                pls = PLACEMENTS_ALL if prio else PLACEMENTS_ALL[:4]
             for pl in pls:
                 out[f"{group}/{v[0]}@{pl}"] = (group, v[0], pl)
     return out
@@ -664,7 +665,7 @@ def _progs_b_order(reg):
             for ax in (0, 1):
                 vs.append((f"axis={ax},rev={rev}", (lambda op, ax, rev: lambda x: getattr(lax, op)(x * 0.25 if op == "cumprod" else x, axis=ax, reverse=bool(rev)))(op, ax, rev)))
         vs.append(("rank1,rev=1", (lambda op: lambda x: getattr(lax, op)(x[0] * 0.25, axis=0, reverse=True))(op)))
-        sites = {"cummax": ["lax/_cum_extrema.py::"], "cummin": ["lax/_cum_extrema.py::"]}.get(op, [f"lax/{op}.py::"])
+        sites = {"cummax": ["lax/_cum_extrema.py::"], "cummin": ["lax/_cum_extrema.py::"]}.get(op, [])     # the others have no guard: supported variants
         reg.add(f"{op}.reverse_axis", sites, [F(3, 4)], vs)
     reg.add("cum.int", ["lax/_cum_extrema.py::axis_extent"], [I((3, 4), -5, 6)], [
         ("cumsum,rev=1", lambda x: lax.cumsum(x, axis=1, reverse=True)),
@@ -697,7 +698,7 @@ def _progs_b_order(reg):
         ("2d,dim=0,keys=1", lambda k1, k2, v: lax.sort((jnp.stack([k1, k2], 1), jnp.stack([v, -v], 1)), dimension=0, num_keys=1)),
         ("sort_key_val", lambda k1, k2, v: lax.sort_key_val(k1, v)),
     ])
-    reg.add("top_k.params", ["lax/top_k.py::", "lax/approx_top_k.py::reduction_dimension"], [F(4, 6)], [
+    reg.add("top_k.params", ["lax/approx_top_k.py::reduction_dimension"], [F(4, 6)], [
         ("k=1", lambda x: lax.top_k(x, 1)), ("k=3", lambda x: lax.top_k(x, 3)), ("k=6", lambda x: lax.top_k(x, 6)),
         ("k=2,axis=0", lambda x: lax.top_k(x, 2, axis=0)),
         ("k=2,axis=-2", lambda x: lax.top_k(x, 2, axis=-2)),
@@ -707,7 +708,7 @@ def _progs_b_order(reg):
         ("approx_max,k=2,dim=0", lambda x: lax.approx_max_k(x, 2, reduction_dimension=0)),
         ("approx_min,k=3,dim=0,noagg", lambda x: lax.approx_min_k(x, 3, reduction_dimension=0, aggregate_to_topk=False)),
     ])
-    reg.add("top_k.int_ties", ["lax/top_k.py::"], [I((3, 7), 0, 4)], [
+    reg.add("top_k.int_ties", [], [I((3, 7), 0, 4)], [
         ("k=3", lambda x: lax.top_k(x, 3)), ("k=3,axis=0", lambda x: lax.top_k(x, 3, axis=0)),
     ])
     reg.add("jnp.sort.params", ["numpy/sort.py::kind", "numpy/sort.py::order"], [F(4, 5)], [
@@ -717,7 +718,7 @@ def _progs_b_order(reg):
         ("method", lambda x: x.sort(axis=0)),
         ("method,descending", lambda x: x.sort(axis=0, descending=True)),
     ])
-    reg.add("jnp.argsort.params", ["numpy/argsort.py::"], [I((4, 7), 0, 3)], [
+    reg.add("jnp.argsort.params", [], [I((4, 7), 0, 3)], [
         ("default(ties)", lambda x: jnp.argsort(x)), ("axis=0", lambda x: jnp.argsort(x, axis=0)),
         ("descending(ties)", lambda x: jnp.argsort(x, descending=True)),
         ("descending,axis=0", lambda x: jnp.argsort(x, axis=0, descending=True)),
@@ -770,7 +771,7 @@ def _progs_c_index(reg):
             C(np.asarray([[0, 5, -1], [-4, 2, 3]], np.int32), np.asarray([[-3, 7, 0], [2, 1, -9]], np.int32))
         vs.append((f"mode={mode},axis=1", (lambda mode: lambda x, i: jnp.take_along_axis(x[:2], i, axis=1, mode=mode))(mode), [F(6, 3), idx]))
         vs.append((f"mode={mode},axis=None", (lambda mode: lambda x, i: jnp.take_along_axis(x, i.reshape(-1), axis=None, mode=mode))(mode), [F(6, 3), idx]))
-    reg.add("take_along_axis.mode", ["numpy/take_along_axis.py::", "lax/gather.py::allowed_modes"], [F(6, 3)], vs)
+    reg.add("take_along_axis.mode", ["lax/gather.py::allowed_modes"], [F(6, 3)], vs)
 
     # ---- dynamic_slice / dynamic_update_slice: starts inside / beyond the operand (JAX clamps)
     st = C(np.asarray([2, 1], np.int32), np.asarray([5, 2], np.int32), np.asarray([-3, -1], np.int32), np.asarray([100, -100], np.int32))
@@ -1016,7 +1017,8 @@ def _progs_e_numpy(reg):
             vs.append(("method,initial", (lambda fn, init: lambda x, w: getattr(x, {"amax": "max", "amin": "min"}.get(fn, fn))(axis=1, initial=init))(fn, init)))
         if fn == "mean":
             vs.append(("where=True", lambda x, w: jnp.mean(x, axis=1, where=True)))
-        reg.add(f"jnp.{fn}.where_initial", [f"numpy/{fn}.py::where", f"numpy/{fn}.py::initial", f"numpy/{fn}.py::out is not None"], [F(3, 4), m], vs)
+        sites = [f"numpy/{fn}.py::where"] + ([f"numpy/{fn}.py::initial"] if fn != "mean" else []) + ([f"numpy/{fn}.py::out is not None"] if fn != "prod" else [])
+        reg.add(f"jnp.{fn}.where_initial", sites, [F(3, 4), m], vs)
     reg.add("jnp.all_any.where", ["numpy/all.py::where", "numpy/any.py::where"], [F(3, 4), m], [
         ("all,axis=1", lambda x, w: jnp.all(x > 0, axis=1)), ("any,axis=0", lambda x, w: jnp.any(x > 0, axis=0)),
         ("all,where", lambda x, w: jnp.all(x > 0, axis=1, where=w)), ("any,where", lambda x, w: jnp.any(x > 0, axis=1, where=w)),
@@ -1182,7 +1184,7 @@ def _progs_e_numpy(reg):
 # ------------------------------------------------------------------------------------------------ programs: misc lax guards, linalg params, converter options
 def _progs_f_misc(reg):
     half = C(np.asarray([-2.5, -1.5, -0.5, 0.5, 1.5, 2.5, 0.49999997, 3.5001], np.float32), np.asarray([-3.5, 4.5, -0.0, 0.0, 6.5, -7.5, 1e-8, -1.4999], np.float32))
-    reg.add("round.method", ["lax/round.py::"], [half], [
+    reg.add("round.method", [], [half], [
         ("away_from_zero", lambda x: lax.round(x)), ("to_nearest_even", lambda x: lax.round(x, lax.RoundingMethod.TO_NEAREST_EVEN)),
         ("jnp.round", lambda x: jnp.round(x)), ("jnp.round decimals=1", lambda x: jnp.round(x * 0.37, 1)), ("jnp.rint", lambda x: jnp.rint(x)),
         ("jnp.trunc", lambda x: jnp.trunc(x)), ("floor/ceil", lambda x: (jnp.floor(x), jnp.ceil(x))),
@@ -1210,7 +1212,7 @@ def _progs_f_misc(reg):
         ("concatenate dtype mix", lambda x, s: jnp.concatenate([x[:, 0], s], axis=0)), ("stack axis=-1", lambda x, s: jnp.stack([x[:, 0], -x[:, 0]], axis=-1)),
         ("broadcast_in_dim (1,)", lambda x, s: lax.broadcast_in_dim(x[0, 0], (4, 4), (1,))), ("broadcast_in_dim (0,)", lambda x, s: lax.broadcast_in_dim(x[0, 0], (4, 4), (0,))),
     ])
-    reg.add("clamp_pow_intops.params", ["lax/clamp.py::", "lax/integer_pow.py::", "lax/pow.py::"], [F(3, 4), I((3, 4), -7, 8)], [
+    reg.add("clamp_pow_intops.params", ["lax/nextafter.py::", "lax/reduce_precision.py::"], [F(3, 4), I((3, 4), -7, 8)], [
         ("clamp min>max", lambda x, n: lax.clamp(0.5, x, -0.5)), ("clamp tensor bounds", lambda x, n: lax.clamp(x * 0.5 - 0.2, x, x * 0.5 + 0.2)),
         ("clamp int", lambda x, n: lax.clamp(-2, n, 3)), ("jnp.clip min only", lambda x, n: jnp.clip(x, min=0.1)), ("jnp.clip max only", lambda x, n: jnp.clip(n, max=2)),
         ("integer_pow 3", lambda x, n: lax.integer_pow(x, 3)), ("integer_pow -2", lambda x, n: lax.integer_pow(x + 3.0, -2)), ("integer_pow 0", lambda x, n: lax.integer_pow(x, 0)),
